@@ -109,6 +109,33 @@ def run_c10_source(ctx: Ctx, M: AnnotateModel):
            "a span start must map after material inserted at that offset (bisect_right) and a span end before it (bisect_left), so "
            f"leading/trailing inserted material stays outside the annotation; found {{k: v[:2] for k, v in got.items()}}".replace("{k: v[:2] for k, v in got.items()}", str({k: v[:2] for k, v in got.items()})),
            node=(got.get(S) or got.get(E) or (None, None, M.LOOP))[2], mod=m)
+    # C10-R10: presence tests of the offset map.  `if offset_updater:` (and `if not document.plain_to_markup` in find) mean "was a source text
+    # given"; with a __len__/__bool__ on SpanUpdater an updater with no breakpoints would count as absent and plain offsets would be used
+    # on the source text
+    from ..pitfalls import classes_with_truth_protocol, one_shot_reuse, truth_tested_instances
+    from ..typed import Typed
+    from ..effects import Effects
+
+    typed = Typed.get(repo.root)
+    proto = classes_with_truth_protocol(repo)
+    sites = truth_tested_instances(repo, typed, list(repo.all_funcs()), {"SpanUpdater"})
+    ctx.extra["truth_tests_of_SpanUpdater"] = [f"{q_}: {norm(e_)}" for q_, e_, _c in sites]
+    ctx.ob("C10-R10", "annotate.SpanUpdater/presence-tests", "SpanUpdater" not in proto,
+           f"SpanUpdater objects are tested for presence by truthiness at {len(sites)} site(s) ({sorted({q_ for q_, _e, _c in sites})}); that equals "
+           f"`is not None` only while the class defines neither __len__ nor __bool__ (defined: {proto.get('SpanUpdater', [])})",
+           node=repo.classes['SpanUpdater'].node if 'SpanUpdater' in repo.classes else f, mod=m)
+    # C10-R11: the diff steps are consumed exactly once.  get_diff_steps_builtin is a generator: a look-ahead over the steps (all(), any(), a
+    # first loop) would leave the table-building loop with the remainder only
+    eff = Effects(repo, typed)
+    for q_ in ("annotate.SpanUpdater.__init__",):
+        fs_ = eff.funcs.get(q_)
+        if fs_ is None:
+            continue
+        for name_, uses_, why_ in one_shot_reuse(repo, eff, fs_):
+            ctx.ob("C10-R11", f"{q_}/one-shot:{name_}", False,
+                   f"`{name_}` may hold a one-shot iterator ({why_}) and is consumed {len(uses_)} times ({[norm(u_)[:40] for u_ in uses_]}): the second "
+                   "consumer sees only what the first left over, so the offset table misses its first ranges", node=uses_[0], mod=m)
+        ctx.ob("C10-R11", f"{q_}/diff-steps-consumed-once", True, "no iterator local of the table builder is consumed twice", node=fs_.node, mod=m, nontrivial=False)
     # R-C10-5: the default diff engine is configured for a minimal character diff
     gd = repo.func("annotate.SpanUpdater.get_diff_steps")
     ctx.ob("C10-R5", "annotate.SpanUpdater.get_diff_steps/located", gd is not None, "diff step provider located", node=f, mod=m, nontrivial=False)
